@@ -27,7 +27,7 @@ LEAVES = [{"shape": [3], "req": True}, {"shape": [2, 3], "req": True}, {"shape":
 
 def gen_cases(tier, seed):
     rng = gen.rng_for(seed, "c04", tier)
-    n = 600 if tier == "quick" else 12000
+    n = 1000 if tier == "quick" else 12000
     cases = [{"scenario": s, "seed": int(rng.integers(2 ** 31))} for s in ("old-root-reused", "retained-twice", "micro-batches", "leaf-root")]
     for k in range(n // 10):
         cases.append({"scenario": "exact", "seed": int(rng.integers(2 ** 31))})
